@@ -194,7 +194,9 @@ func runC20(c *Ctx) {
 	rec("cidr", nil, maxStr)
 	// multi-argument steps on a source-network list (entries that differ by case and blanks only)
 	for i := 0; i < 300; i++ {
-		nalpha := []string{"10.0.0.0/8", " 10.0.0.0/8", "A:B::/32", "a:b::/32 ", "\tA:b::/32", "", "fe80::/10", "FE80::/10"}
+		// (an argument is ONE entry, whatever it contains: a comma, a semicolon, a blank inside)
+		nalpha := []string{"10.0.0.0/8", " 10.0.0.0/8", "A:B::/32", "a:b::/32 ", "\tA:b::/32", "", "fe80::/10", "FE80::/10",
+			"10.0.0.0/8,192.168.0.0/16", " 10.0.0.0/8,192.168.0.0/16 ", "a,b", ",", "x;y", "10.0.0.0/8 192.168.0.0/16"}
 		var ops []lop
 		for j := 0; j < 2+c.Rng.Intn(6); j++ {
 			args := make([]string, 1+c.Rng.Intn(3))
@@ -283,7 +285,7 @@ func runC20(c *Ctx) {
 	if c.thorough() {
 		nrand = 8000
 	}
-	ralpha := []string{"a", "A", " a ", "b", "B ", "", "c", "\tC\n", "dd", "Dd ", "e f", "  "}
+	ralpha := []string{"a", "A", " a ", "b", "B ", "", "c", "\tC\n", "dd", "Dd ", "e f", "  ", "a,b", "A,B ", ",", "c;dd"}
 	for i := 0; i < nrand; i++ {
 		n := 5 + c.Rng.Intn(36)
 		var tl jwt.TagList
